@@ -42,8 +42,9 @@ RULE = ('valid texts: product of declaration order, separator style, header subs
 ASSUMPTIONS = [
     'text is read through io.StringIO (parse_path only for a slice of the valid texts); lines end with a line feed (part rows: also carriage return + line feed)',
     'a corrupted text may always be refused with a DAT error; a returned result has to agree with the reference reading',
-    'where the statement leaves a text open (blank lines, malformed declaration lines, UTIM/DATE/TIME with other units, '
+    'where the statement leaves a text open (blank lines among the declarations, malformed declaration lines, UTIM/DATE/TIME with other units, '
     'numbers before 1970, a header with no further name, no header at all) both refusal and a consistent result are accepted',
+    'a blank line after the header is a data line without fields: it does not match the header and the text has to be refused',
     'descriptions are compared after whitespace normalisation',
     'can_parse_file: True is required for a valid text with at least one row, False for a text that has to be refused '
     'judging by everything up to the first line after the header; nothing else is required of it',
@@ -524,15 +525,22 @@ def run_shard(shard, tier):
                                              'dv': [[year, month, day, spelling, pad]]})
                             res.count('calendar_dates')
     elif shard['part'] == 'rows':
+        from mc import seams
+        os.makedirs(seams.SCRATCH, exist_ok=True)
+        directory = tempfile.mkdtemp(prefix='c14-', dir=seams.SCRATCH)
         for decl in (list(names), list(reversed(names))):
-            for hdr in hdrs:
+            for hi, hdr in enumerate(hdrs):
                 for n in range(0, 4):
-                    for dv in _dv_combos(n, tier):
-                        _run_valid(res, {'pool': pool, 'decl': decl, 'sep': shard['sep'], 'hdr': hdr, 'dv': dv})
+                    for di, dv in enumerate(_dv_combos(n, tier)):
+                        # the by-path twin of the parser on texts of 0, 1 and 2 rows (first header, first date form)
+                        by_path = hi == 0 and di == 0 and n <= 2
+                        _run_valid(res, dict({'pool': pool, 'decl': decl, 'sep': shard['sep'], 'hdr': hdr, 'dv': dv}, **({'path': True} if by_path else {})),
+                                   directory if by_path else None)
                     for dv in _dv_combos(n, tier)[:2]:
                         _run_valid(res, {'pool': pool, 'decl': decl, 'sep': shard['sep'], 'hdr': hdr, 'dv': dv, 'nofinal': 1})
                         _run_valid(res, {'pool': pool, 'decl': decl, 'sep': shard['sep'], 'hdr': hdr, 'dv': dv, 'crlf': 1})
                         _run_valid(res, {'pool': pool, 'decl': decl, 'sep': shard['sep'], 'hdr': hdr, 'dv': dv, 'crlf': 1, 'nofinal': 1})
+        shutil.rmtree(directory, ignore_errors=True)
     else:
         for pi in shard['orders']:
             decl = [names[i] for i in perms[pi]]
